@@ -513,6 +513,8 @@ def _native_expr(node, in_buffer_class):
                 return True
             if in_buffer_class and isinstance(inner, ast.Name) and inner.id == "self":
                 return True
+            if isinstance(inner, ast.Name) and "buf" in inner.id.lower() and inner.id != "self":
+                return True  # `xbuffer.buffer`, `buf.buffer`: the storage of a buffer object held in a local / parameter
     return False
 
 
@@ -545,7 +547,7 @@ def _tainted(node, tainted, in_buffer_class):
     return False
 
 
-@rule("NC2", ["C04", "C13", "C08", "C17", "C10", "C06", "C18"], "may-alias analysis over the whole package: nothing that aliases a buffer's native storage (the storage itself, a memoryview / frombuffer / slice view of it, a pointer into it) is kept in an attribute, a module-level container or a closure -- the storage is replaced when the buffer grows")
+@rule("NC2", ["C04", "C13", "C08", "C17", "C10", "C06", "C18", "C20", "C09", "C02", "C07"], "may-alias analysis over the whole package: nothing that aliases a buffer's native storage (the storage itself, a memoryview / frombuffer / slice view of it, a pointer into it) is kept in an attribute, a module-level container or a closure -- the storage is replaced when the buffer grows")
 def nc2(cx):
     """`XBuffer.grow` rebinds `self.buffer` to new storage.  Any object that aliases the OLD storage and outlives the call
     that made it reads and writes abandoned memory afterwards.  Per function: locals assigned from an expression that
